@@ -175,16 +175,26 @@ def execute_rules(ctx, case):
 def agg_cases(draw):
   rules = [draw(aggpat.rules(idx=i)) for i in range(draw(st.integers(0, 4)))]
   conf = draw(c05.configs())
+  # several aggregates of the same inputs (same input pattern, different output / method): legal and common
+  if rules and draw(st.integers(0, 2)) == 0:
+    r = draw(st.sampled_from(rules))
+    rules.append(dict(r, output='also%d.%s' % (len(rules), r['output']), method=draw(st.sampled_from(['sum', 'count', 'max']))))
   # optionally a second generation of the rules file, picked up by the rule manager's reload while the router lives
   rules2 = None
   if draw(st.integers(0, 2)) == 0:
     rules2 = [draw(aggpat.rules(idx=10 + i)) for i in range(draw(st.integers(0, 3)))]
+    if rules and draw(st.booleans()):
+      # an edit that keeps a rule's input pattern and renames its aggregate
+      r = draw(st.sampled_from(rules))
+      rules2.append(dict(r, output='renamed.' + r['output']))
   names = draw(st.lists(aggpat.names_for(rules + (rules2 or [])), min_size=2, max_size=12))
   return {'kind': 'agg', 'rules': rules, 'rules2': rules2, 'styles': [draw(st.integers(0, 1)) for _ in rules],
           'dests': conf['dests'], 'rf': conf['rf'], 'diverse': conf['diverse'], 'hash': conf['hash'],
           'router': draw(st.sampled_from(['aggregated-consistent-hashing', 'aggregated-consistent-hashing',
                                           'fast-aggregated-hashing'])),
-          'names': [n for n in names if n], 'comment_lines': draw(st.booleans())}
+          'names': [n for n in names if n], 'comment_lines': draw(st.booleans()),
+          # the documented name-lookup cache of the rules (off by default)
+          'cache': draw(st.sampled_from(['off', 'off', 'lru', 'ttl']))}
 
 
 def ref_destinations(case, ref, key):
@@ -208,7 +218,8 @@ def ref_destinations(case, ref, key):
 
 def execute_agg(ctx, case):
   b = env.bootstrap()
-  env.reset()
+  cmax, cttl = {'off': (0, 0), 'lru': (50, 0), 'ttl': (50, 300)}[case.get('cache', 'off')]
+  env.reset(CACHE_METRIC_NAMES_MAX=cmax, CACHE_METRIC_NAMES_TTL=cttl)
   path = os.path.join(b.conf_dir, 'aggregation-rules.conf')
   lines = []
   if case.get('comment_lines'):
